@@ -103,7 +103,7 @@ func main() {
 		if c.Trusted {
 			o.Trusted = append(o.Trusted, n+" ["+c.TrustedWhy+"]")
 		}
-		if c.Lib || c.Trusted || c.Sig == nil {
+		if c.Lib || c.Trusted || c.Sig == nil || c.Inline {
 			continue
 		}
 		fn := eng.allFuncs[n]
@@ -130,22 +130,58 @@ func main() {
 			o.Functions = append(o.Functions, eng.verifyFunction(eng.allFuncs[n], nil))
 		}
 	}
-	for _, lm := range eng.lemmas {
-		if sel("lemma."+lm.Name, lm.Props) {
-			o.Functions = append(o.Functions, eng.verifyLemma(lm))
-		}
-	}
 	o.GenS = time.Since(t1).Seconds()
 	var obs []*Obligation
 	for _, f := range o.Functions {
 		obs = append(obs, f.Obligations...)
 	}
 	t2 := time.Now()
-	eng.prelude = string(pre) + strings.Join(eng.smtLines, "\n") + "\n" + strings.Join(eng.strLitDecls, "")
+	basePrelude := func() string {
+		return string(pre) + strings.Join(eng.smtLines, "\n") + "\n" + strings.Join(eng.strLitDecls, "")
+	}
+	dir, _ := os.MkdirTemp("", "govc")
+	defer os.RemoveAll(dir)
+	// Lemmas are proved first, in file order; a proved lemma is an axiom for everything after it.
+	axioms := ""
+	for _, lm := range eng.lemmas {
+		r := eng.verifyLemma(lm)
+		if !*gen {
+			dischargeAll(r.Obligations, basePrelude()+axioms, dir, *timeout, *seed, *workers, *both)
+		}
+		ok := len(r.Obligations) > 0 && len(r.Errors) == 0
+		for _, ob := range r.Obligations {
+			if ob.Status != "discharged" {
+				ok = false
+			}
+		}
+		if ok {
+			axioms += "; lemma " + lm.Name + "\n(assert " + lm.Formula + ")\n"
+		}
+		if sel("lemma."+lm.Name, lm.Props) {
+			o.Functions = append(o.Functions, r)
+		}
+	}
+	eng.prelude = basePrelude() + axioms
+	{
+		// vacuity guard for the theory itself: prelude + spec theory + proved lemmas must not be contradictory
+		sc := newScript()
+		th := &Obligation{Name: "theory/consistent#1", Func: "theory", Kind: "cover.theory", script: sc, pc: "true", goal: "false", Expect: "sat",
+			GoalTxt: "prelude, spec theory and proved lemmas are not contradictory"}
+		for p := range wantProps {
+			th.Props = append(th.Props, p)
+		}
+		if !*gen {
+			discharge(th, eng.prelude, dir, *timeout, *seed, false)
+		}
+		o.Functions = append(o.Functions, &FuncResult{Name: "theory", Obligations: []*Obligation{th}, IsLemma: true})
+	}
 	if !*gen {
-		dir, _ := os.MkdirTemp("", "govc")
-		defer os.RemoveAll(dir)
 		dischargeAll(obs, eng.prelude, dir, *timeout, *seed, *workers, *both)
+	}
+	for _, f := range o.Functions {
+		if f.IsLemma {
+			obs = append(obs, f.Obligations...)
+		}
 	}
 	o.SolveS = time.Since(t2).Seconds()
 	if *dump != "" {
